@@ -49,6 +49,7 @@ type VirtualTable struct {
 	ColumnNameByIndex map[int]string
 	Tree              *KV
 	txStart           *kv.DB
+	commitFailed      bool
 	KeyCol            int
 	usesRowID         bool
 
@@ -517,7 +518,10 @@ func (c *Cursor) Filter(ctx context.Context, idxStr string, val []interface{}) e
 			}
 		}
 	}
-	var err error
+	err := c.t.reopenAfterFailedCommit(ctx)
+	if err != nil {
+		return err
+	}
 	c.cursor, err = c.t.Tree.Root.Cursor(ctx)
 	if err != nil {
 		return fmt.Errorf("cursor: %w", err)
@@ -840,6 +844,10 @@ func (c *VirtualTable) Begin(ctx context.Context) error {
 	if c.txStart != nil {
 		return errors.New("transaction already in progress")
 	}
+	err = c.reopenAfterFailedCommit(ctx)
+	if err != nil {
+		return err
+	}
 	c.txStart, err = c.Tree.Root.Clone(ctx)
 	if err != nil {
 		return fmt.Errorf("clone: %w", err)
@@ -854,9 +862,28 @@ func (c *VirtualTable) Commit(ctx context.Context) error {
 	c.Tree.Root.SetCreated(time.Now())
 	_, err := c.Tree.Root.Commit(ctx)
 	if err != nil {
+		c.commitFailed = true
 		return fmt.Errorf("commit tree: %w", err)
 	}
 	c.txStart = nil
+	return nil
+}
+
+// reopenAfterFailedCommit replaces the tree by what the bucket holds, once, after
+// a commit has failed. The tree marks a node as stored as soon as its PUT is
+// queued, and the snapshot that Rollback goes back to shares node objects with
+// the tree whose commit failed: carrying on with it, the next commit could
+// publish a version that refers to nodes that never reached the bucket.
+func (c *VirtualTable) reopenAfterFailedCommit(ctx context.Context) error {
+	if !c.commitFailed || c.txStart != nil {
+		return nil
+	}
+	tree, err := OpenKV(ctx, c.S3Options, "s3db-rows")
+	if err != nil {
+		return fmt.Errorf("reopen after failed commit: %w", err)
+	}
+	c.Tree = tree
+	c.commitFailed = false
 	return nil
 }
 
@@ -973,6 +1000,10 @@ func Vacuum(ctx context.Context, tableName string, beforeTime time.Time) error {
 		return fmt.Errorf("table not found: %s", tableName)
 	}
 
+	err := table.reopenAfterFailedCommit(ctx)
+	if err != nil {
+		return err
+	}
 	if table.Tree.Root.IsDirty() {
 		// vacuuming commits the tree: never publish a transaction early
 		return fmt.Errorf("table has uncommitted changes: %s", tableName)
